@@ -39,6 +39,27 @@ func (r *Run) translatorValidation(ld *Loaded, n int) {
 		paths = append(paths, p)
 	}
 	sort.Strings(paths)
+	// widths of the leaves, from a probe of the symbolic CPU object
+	width := map[string]int{}
+	{
+		px := NewExec(ld)
+		pst := &State{h: Heap{}}
+		pc := ld.contracts["z80.(*CPU).executeOne"]
+		pargs := px.symbolicArgs(pc.Fn, pst)[0].args
+		var walk func(v Value, t types.Type, gp string)
+		walk = func(v Value, t types.Type, gp string) {
+			switch u := v.(type) {
+			case *StructV:
+				stt := t.Underlying().(*types.Struct)
+				for i := range u.F {
+					walk(u.F[i], stt.Field(i).Type(), gp+"."+stt.Field(i).Name())
+				}
+			case *Term:
+				width[gp] = u.S.W
+			}
+		}
+		walk(pst.h[pargs[0].(*PtrV).Obj], cpuT, "cpu")
+	}
 	var samples []*tvSample
 	for k := 0; k < n; k++ {
 		s := &tvSample{enc: encs[k%len(encs)], leaf: map[string]uint64{}, kinds: kinds, mem: map[uint16]uint8{}, post: map[string]uint64{}, memOut: map[uint16]uint8{}}
@@ -56,6 +77,9 @@ func (r *Run) translatorValidation(ld *Loaded, n int) {
 				default:
 					v = uint64(rng.Intn(65536))
 				}
+			}
+			if w := width[p]; w > 0 && w < 64 && !strings.HasPrefix(kinds[p], "int") {
+				v &= (uint64(1) << uint(w)) - 1
 			}
 			s.leaf[p] = v
 		}
